@@ -296,7 +296,7 @@ func runIn(sc *Scenario, res *core.Result, verbose bool) {
 	// --- Q1: signing succeeds, output = packed message || one SIG, ARCOUNT+1
 	signed, err := sig.Sign(kp.priv, m)
 	res.Bump("oracle.Q1_sign")
-	sigRRLen := 1 + 10 + 18 + len(kp.key.Hdr.Name) + 1 + 260
+	sigRRLen := 1 + 10 + 18 + len(kp.key.Hdr.Name) + 1 + 520 // room for the largest signature (RSA-4096: 512 octets)
 	if err != nil {
 		if len(packed)+sigRRLen > 65535 {
 			res.Bump("cover.too_large_to_sign")
